@@ -46,7 +46,7 @@ def client_trace(res, vh, runs, threads, stage):
             objs.add(t * 10 + k)
     consts = dict(CLIENT_BUGS_OFF, Threads=set(range(1, threads + 1)), Objs=objs)
     cfg = write_cfg(os.path.join(res.wd, "Trace_Client_%s.cfg" % stage), spec="TraceSpec", constants=consts,
-                    invariants=["TraceInv"], constraints=["Mark"], postcondition="TraceAccepted")
+                    invariants=["TraceInv"], constraints=["Mark"], postcondition="TraceAccepted", view="TView")
     env = {"TRACE": tr, "JAVA_TOOL_OPTIONS": "-Dtlc2.tool.queue.IStateQueue=StateDeque"}
     r = run_tlc("Trace_Client", cfg, res.wd, workers=1, tag="trace-" + stage, env=env, xmx="6g", timeout=1800)
     res.add_tlc(r)
